@@ -202,8 +202,13 @@ class Gen:
             if r < 0.6:
                 self.emit("splice_text", d, o, self.pos(), self.r.randrange(-3, 4), self.text())
             elif r < 0.8:
+                # NaN mark values trip a debug assertion inside automerge itself (op_set.rs, QueryNth
+                # compared with ==): not a C36 matter, and it would end the script early
+                v = self.val()
+                while v.startswith("f64:7ff8"):
+                    v = self.val()
                 self.emit("mark", d, o, self.r.randrange(100), self.r.randrange(100), self.r.choice(EXPAND),
-                          hs(self.r.choice(MARKS)), self.val())
+                          hs(self.r.choice(MARKS)), v)
             elif r < 0.9:
                 self.emit("unmark", d, o, self.r.randrange(100), self.r.randrange(100), self.r.choice(EXPAND),
                           hs(self.r.choice(MARKS)))
